@@ -115,6 +115,35 @@ def run_property(prop: str, tier: str, root: str, seed: int, write_evidence: boo
                 known_hits.append((f, k))
             else:
                 violations.append(f)
+    if tier == "thorough" and not violations and not os.environ.get("SA_NO_SELFTEST"):
+        # self-validation of this property's rules on scratch copies (DESIGN §6);
+        # only meaningful when the tree itself is clean
+        try:
+            from .selftest import run as run_mutants
+
+            os.environ["SA_NO_SELFTEST"] = "1"  # mutant runs are quick-tier
+            try:
+                mres = run_mutants(prop, min(16, os.cpu_count() or 4), root, quiet=True, seed=seed)
+            finally:
+                del os.environ["SA_NO_SELFTEST"]
+            r = RuleResult("SELFTEST")
+            r.instances = len(mres)
+            r.nontrivial = len(mres)
+            for name, ok, msg in mres:
+                r.ob(ok)
+                r.sample(f"{name}: {msg[:120]}")
+                if not ok:
+                    r.notes.append(f"mutant {name}: {msg}")
+            results.append(r)
+            out(f"[{prop}] rule SELFTEST (thorough): mutants={r.instances} behaved={r.discharged}")
+            bad = [m for m in mres if not m[1] and not m[2].startswith("STALE")]
+            if bad:
+                print(f"ANALYSIS-ERROR property={prop} self-test: {len(bad)} mutant(s) not handled as required, e.g. {bad[0][0]}: {bad[0][2][:200]}")
+                return 2
+        except Exception as e:
+            traceback.print_exc()
+            print(f"ANALYSIS-ERROR property={prop} self-test crashed: {type(e).__name__}: {e}")
+            return 2
     for f in advisories:
         out(f"[{prop}] advisory: {f.text()}")
     for f, k in known_hits:
